@@ -14,11 +14,14 @@ pub static mut LOG_NARGS: [usize; LOG_CAP] = [0; LOG_CAP];
 pub static mut LOG_KIND: [u8; LOG_CAP] = [0; LOG_CAP];
 pub static mut LOG_LEN: usize = 0;
 pub static mut LOG_OVERFLOW: bool = false;
+/// number of events including those that did not fit in the log
+pub static mut LOG_TOTAL: usize = 0;
 
 pub fn log_reset() {
     unsafe {
         LOG_LEN = 0;
         LOG_OVERFLOW = false;
+        LOG_TOTAL = 0;
     }
 }
 pub fn log_len() -> usize {
@@ -36,12 +39,16 @@ pub fn log_kind(i: usize) -> u8 {
 pub fn log_nargs(i: usize) -> usize {
     unsafe { LOG_NARGS[i] }
 }
+pub fn log_total() -> usize {
+    unsafe { LOG_TOTAL }
+}
 pub fn log_overflow() -> bool {
     unsafe { LOG_OVERFLOW }
 }
 
 pub fn log_event(fmt: &'static str, args: &[u64]) {
     unsafe {
+        LOG_TOTAL += 1;
         if LOG_LEN >= LOG_CAP {
             LOG_OVERFLOW = true;
             return;
